@@ -34,7 +34,14 @@ FUNCS = [  # (lean name, file, class, method, translator key, lean type)
     ("triggerAsync", "statemachine/engines/async_.py", "AsyncEngine", "_trigger", "trigger", "List TStmt"),
     ("processSync", "statemachine/engines/sync.py", "SyncEngine", "processing_loop", "process", "List PStmt"),
     ("processAsync", "statemachine/engines/async_.py", "AsyncEngine", "processing_loop", "process", "List PStmt"),
+    ("wrapperCall", "statemachine/callbacks.py", "CallbackWrapper", "call", "wrapper", "List WStmt"),
+    ("wrapperDunder", "statemachine/callbacks.py", "CallbackWrapper", "__call__", "wrapper", "List WStmt"),
+    ("execCall", "statemachine/callbacks.py", "CallbacksExecutor", "call", "executor", "List XStmt"),
+    ("execAll", "statemachine/callbacks.py", "CallbacksExecutor", "all", "executor", "List XStmt"),
+    ("execAsyncCall", "statemachine/callbacks.py", "CallbacksExecutor", "async_call", "executor", "List XStmt"),
+    ("execAsyncAll", "statemachine/callbacks.py", "CallbacksExecutor", "async_all", "executor", "List XStmt"),
 ]
+ASYNC_DEF = {"activateAsync", "triggerAsync", "processAsync", "wrapperDunder", "execAsyncCall", "execAsyncAll"}
 
 AWAITABLE = {"async_call", "async_all", "_activate", "_trigger"}
 
@@ -334,7 +341,88 @@ def tr_process(fn):
     return "[\n  " + ",\n  ".join(out) + "]"
 
 
-TRANSLATORS = {"activate": tr_activate, "trigger": tr_trigger, "process": tr_process}
+# ----------------------------------------------------------------------------------------- callbacks.py
+
+def prepare_star(fn):
+    """body without the docstring of a method `(self, *args, **kwargs)`; the star parameters renamed to A / K"""
+    if fn.decorator_list:
+        raise Untranslatable(f"{fn.name}: decorated")
+    a = fn.args
+    names = [x.arg for x in a.posonlyargs + a.args]
+    if names != ["self"] or not a.vararg or not a.kwarg or a.kwonlyargs or a.defaults:
+        raise Untranslatable(f"{fn.name}: parameters {ast.unparse(a)}")
+    body = list(fn.body)
+    if body and isinstance(body[0], ast.Expr) and isinstance(body[0].value, ast.Constant) \
+            and isinstance(body[0].value.value, str):
+        body = body[1:]
+    return body, {a.vararg.arg: "A", a.kwarg.arg: "K"}
+
+
+def tr_wrapper(fn):
+    body, env = prepare_star(fn)
+    out = []
+    for s in body:
+        t = text(s, env)
+        m = re.match(r"^(\w+) = self\._callback\(\*A, \*\*K\)$", t)
+        if m:
+            bind(env, m.group(1), "VALUE")
+            out.append(".invoke")
+            continue
+        if t == "if isawaitable(VALUE):\n    VALUE = await VALUE":
+            out.append(".awaitIfAwaitable")
+            continue
+        if t == "if self.expected_value is not None:\n    return bool(VALUE) == self.expected_value":
+            out.append(".compareIfExpected")
+            continue
+        if t == "return VALUE":
+            out.append(".retValue")
+            continue
+        raise Untranslatable(f"{fn.name}: statement at line {s.lineno} not recognised: {t!r}")
+    return "[\n  " + ",\n  ".join(out) + "]"
+
+
+def tr_executor(fn):
+    body, env = prepare_star(fn)
+    out = []
+    for s in body:
+        t = text(s, env)
+        m = re.match(r"^return \[(\w+)\.call\(\*A, \*\*K\) for \1 in self if \1\.condition\(\*A, \*\*K\)\]$", t)
+        if m:
+            out.append(".retListComp .call")
+            continue
+        m = re.match(r"^for (\w+) in self:\n    if not \1\.call\(\*A, \*\*K\):\n        return False$", t)
+        if m:
+            out.append(".forGuards .call false")
+            continue
+        m = re.match(r"^for (\w+) in self:\n    if not await \1\(\*A, \*\*K\):\n        return False$", t)
+        if m:
+            out.append(".forGuards .dunder true")
+            continue
+        if t == "return True":
+            out.append(".retTrue")
+            continue
+        m = re.match(r"^(\w+) = \[asyncio\.ensure_future\((\w+)\(\*A, \*\*K\)\) for \2 in self "
+                     r"if \2\.condition\(\*A, \*\*K\)\]$", t)
+        if m:
+            bind(env, m.group(1), "TASKS")
+            out.append(".spawnFiltered")
+            continue
+        m = re.match(r"^try:\n"
+                     r"    return await asyncio\.gather\(\*TASKS\)\n"
+                     r"except BaseException:\n"
+                     r"    for (\w+) in TASKS:\n"
+                     r"        \1\.cancel\(\)\n"
+                     r"    await asyncio\.gather\(\*TASKS, return_exceptions=True\)\n"
+                     r"    raise$", t)
+        if m:
+            out.append(".tryGatherCancel")
+            continue
+        raise Untranslatable(f"{fn.name}: statement at line {s.lineno} not recognised: {t!r}")
+    return "[\n  " + ",\n  ".join(out) + "]"
+
+
+TRANSLATORS = {"activate": tr_activate, "trigger": tr_trigger, "process": tr_process, "wrapper": tr_wrapper,
+               "executor": tr_executor}
 
 
 def translate(repo):
@@ -344,7 +432,7 @@ def translate(repo):
         try:
             fn = method(repo, rel, cls, meth)
             is_async = isinstance(fn, ast.AsyncFunctionDef)
-            if is_async != name.endswith("Async"):
+            if is_async != (name in ASYNC_DEF):
                 raise Untranslatable(f"{cls}.{meth}: {'async def' if is_async else 'def'}")
             res[name] = (ty, TRANSLATORS[key](fn), None)
         except Untranslatable as e:
